@@ -728,3 +728,30 @@ def count_is_ncnt(lem):
 
     lem.prove = prove
     lem.statement = lambda s: z3.And(*axioms_for(as_str(s).arr), COUNT(as_str(s).arr, as_str(s).n, 78) + COUNT(as_str(s).arr, as_str(s).n, 110) == NCNT(as_str(s).arr, as_str(s).n))
+
+
+# ------------------------------------------------------------------------------ constructors of the comparers
+def _comparer_init(cls, reverse):
+    @contract("_align.pyx", f"{cls}.__init__", props=["C01", "C02"])
+    def _c(c):
+        """the comparer is set up with the wildcard settings, error budget and minimum overlap it was given (the anchored
+        3' comparer works on the reversed adapter)"""
+        c.types(self=ObjT(cls, **ComparerT.fields), reference=Str, max_error_rate=Real, wildcard_ref=Bool, wildcard_query=Bool, min_overlap=Int)
+        c.modifies = ["self"]
+        c.raises("ValueError", when=None)
+        c.requires(size="len(reference) <= 1000000000")
+        c.ensures(
+            wildcard_settings_are_the_ones_given="self.wildcard_ref == wildcard_ref and self.wildcard_query == wildcard_query",
+            length_and_overlap="self.m == len(reference) and self.min_overlap == min_overlap and min_overlap >= 1",
+            error_budget_from_the_rate_and_the_effective_length="self.max_k == int(max_error_rate * self.effective_length) and 0 <= max_error_rate <= 1",
+            reference_has_the_adapters_length="len(self.reference) == len(reference)",
+        )
+        if reverse:
+            c.mutant("wildcard_ref, wildcard_query, min_overlap", "wildcard_ref, wildcard_ref, min_overlap")
+        else:
+            c.mutant("self.wildcard_query = wildcard_query", "self.wildcard_query = wildcard_ref")
+    return _c
+
+
+prefix_comparer_init = _comparer_init("PrefixComparer", False)
+suffix_comparer_init = _comparer_init("SuffixComparer", True)
